@@ -60,7 +60,7 @@ var initWhitelist = map[string]bool{
 	"bufio": true, "bytes": true, "io": true, "strings": true, "strconv": true,
 	"sort": true, "slices": true, "errors": false, "encoding/base64": true,
 	"encoding/hex": true, "encoding/binary": true, "unicode/utf8": true,
-	"math/bits": true, "math": true, "path/filepath": true, "cmp": true,
+	"math/bits": true, "math": false, "path/filepath": true, "cmp": true,
 	"internal/itoa": true, "internal/stringslite": true, "io/fs": false,
 	"golang.org/x/crypto/chacha20poly1305": false,
 }
@@ -321,7 +321,8 @@ func (i *interpreter) runPath(fn *ssa.Function, prefix []dec) {
 	}()
 	if outcome == "panic" && !e.panicOK {
 		// an uncaught panic of the target on a feasible path
-		if e.check() != Unsat {
+		e.predefine()
+		if e.checkFull() != Unsat {
 			m, err := e.model()
 			if err == nil {
 				v := e.buildViolation("panic", "uncaught panic: "+firstLine(detail), m)
@@ -339,7 +340,10 @@ func (i *interpreter) runPath(fn *ssa.Function, prefix []dec) {
 		x.mu.Lock()
 		take := len(x.Witnesses) < maxW && (len(x.Witnesses) < 2 || h%5 == 0)
 		x.mu.Unlock()
-		if take && e.check() == Sat {
+		if take {
+			e.predefine()
+		}
+		if take && e.checkFull() == Sat {
 			if m, err := e.model(); err == nil {
 				w := e.buildViolation("witness", "", m)
 				for _, l := range e.logs.events {
